@@ -84,3 +84,37 @@ Definition verdict_val (c : val_case) : N :=
   (if Bool.eqb (ref_validate (vc_path c) (vc_stage c)) (vc_ok c) then 0 else 2).
 Definition run_val (cs : list val_case) : list (N * N) :=
   filter (fun p => negb (snd p =? 0)) (map (fun c => (vc_id c, verdict_val c)) cs).
+
+(* ---------- C17 ---------- *)
+From DudV Require Import Model.StageFile.
+
+Record sf_case := mkSF {
+  sf_id : N;
+  sf_path : bytes;                 (* stage file path (relative), for the self-reference test *)
+  sf_written : ystage;             (* the value handed to the YAML encoder *)
+  sf_loaded : option stage;        (* what stage.FromFile returned for the written file *)
+  sf_reloaded : option stage;      (* loaded stage written again with ToFile and loaded again *)
+  sf_cs : bytes;                   (* CalculateChecksum of the loaded stage *)
+  sf_cs_same : bytes;              (* ... after changing artifact checksums and the stage checksum *)
+  sf_cs_diff : list bytes }.       (* ... after changing one definition field at a time *)
+
+Definition verdict_sf (c : sf_case) : N :=
+  let m := from_file (sf_written c) in
+  let mval := validate (sf_path c) m in
+  let corr :=
+    match sf_loaded c with
+    | Some s => mval && stage_eqb m s && beqb (def_checksum hexdigest s) (sf_cs c)
+    | None => negb mval
+    end in
+  let spec :=
+    match sf_loaded c with
+    | Some s =>
+      nf_stage s &&
+      match sf_reloaded c with Some s2 => stage_eqb s s2 | None => false end &&
+      beqb (sf_cs_same c) (sf_cs c) &&
+      forallb (fun d => negb (beqb d (sf_cs c))) (sf_cs_diff c)
+    | None => negb mval      (* a valid stage that was written must load again *)
+    end in
+  (if corr then 0 else 1) + (if spec then 0 else 2).
+Definition run_sf (cs : list sf_case) : list (N * N) :=
+  filter (fun p => negb (snd p =? 0)) (map (fun c => (sf_id c, verdict_sf c)) cs).
